@@ -25,6 +25,19 @@ Theorem C07_parse_guarded :
 Proof. exact parse_msg_guarded. Qed.
 Print Assumptions C07_parse_guarded.
 
+(* No except handler on the read path can raise: every log call found in the handlers of SocketDriver._read,
+   drivers.run, log.firewall and Irc.feedMsg (regenerated inventory HANDLER_LOGS, sanity predicate handler_logs_ok)
+   has a constant template with an argument for each utils.str.format directive, so server-controlled text is only
+   ever in ARGUMENT position.  (A handler that puts the rejected line into the template — '...%r' % line — makes
+   handler_logs_ok false, and the model then raises ValueError out of the handler for a line such as ":%s".) *)
+Theorem C07_handlers_do_not_raise :
+  handler_logs_ok = true /\ (forall site, site_raises site = false) /\ (forall line, guard_log_raises line = false) /\
+  consuming [58; 37; 115] = 1%N.
+Proof.
+  split; [exact T_logs|]. split; [exact site_quiet|]. split; [exact guard_quiet|]. exact (proj1 consuming_examples).
+Qed.
+Print Assumptions C07_handlers_do_not_raise.
+
 (* THE FULL STATEMENT.  For every byte stream, every decode function, every chunking, every sequence of recv faults
    that _read's except clauses name (socket.timeout, SSLError, socket.error, close), every handler raising Exception
    subclasses and every callback raising anything: the driver stays registered, drivers.run() does not crash and nothing
